@@ -48,11 +48,12 @@ func (en *Engine) Stress(n, q int, o StressOpt, idx int) {
 		}()
 		en.E.Count("stress_real_deadline_runs", 1)
 	}
-	timeout := longTimeout
+	// the timeout is not what is being measured: any value, from "do not wait" to "for ever"
+	timeout := en.longTO()
 	if rng.Chance(30) {
-		timeout = time.Duration(200+rng.Intn(1800)) * time.Microsecond
+		timeout = [...]time.Duration{0, -time.Millisecond, 1, time.Duration(200+rng.Intn(1800)) * time.Microsecond, time.Millisecond}[rng.Intn(5)]
 	}
-	r.Start(timeout)
+	r.StartExact(timeout)
 	prods, per, polls := 2+rng.Intn(2), 1+rng.Intn(3), 2
 	if o.Big {
 		prods, per, polls = 3+rng.Intn(6), 8+rng.Intn(40), 40
@@ -69,7 +70,11 @@ func (en *Engine) Stress(n, q int, o StressOpt, idx int) {
 			var t *Task
 			switch c := rng.Intn(100); {
 			case c < o.PanicPct:
-				t = r.NewTask(false, 0, true)
+				if rng.Chance(12) {
+					t = r.NewPanicNilTask() // panic(nil)
+				} else {
+					t = r.NewTask(false, 0, true)
+				}
 			case o.SleepTasks && c < o.PanicPct+40:
 				t = r.NewTask(false, time.Duration(50+rng.Intn(400))*time.Microsecond, false)
 			case c < 70:
